@@ -599,20 +599,9 @@ func (s *Sim) onReturn(o *OpRecord, li *ledgerInst) {
 	if o.Tx != nil && e.Tx == nil && s.wants("C07") {
 		s.violate("C07", "ik-replay-of-other-kind", fmt.Sprintf("%s: request %s (ik %q) got a transaction but the stored effect (entry %d) is a %s", li.name, o.Name, o.Op.IK, e.Idx, e.Type))
 	}
-	// C16: every persisted change is published at least once, before the answer
-	// (judged per entry: an idempotent replay answers from an entry that its original request published)
-	published := e.Published > 0
-	if o.Op.Kind == "delmeta" && !replay {
-		// entries deleting the same key of the same target are indistinguishable: judge by the request
-		published = o.published > 0
-	}
-	if replay {
-		// the producing request publishes before its own answer; a replay may be answered in between
-		published = true
-	}
-	if !published && s.wants("C16") && !s.cur.dead.Load() {
-		s.violate("C16", "committed-change-not-published", fmt.Sprintf("%s: request %s (%s) was answered with success, entry %d (%s) is persisted, but no event describing that entry has been published", li.name, o.Name, o.Op.Kind, e.Idx, e.Type), "kind="+o.Op.Kind, "type="+e.Type)
-	}
+	// C16's "every persisted change is published at least once" is judged at the end of orderly
+	// generations (finalC16), not here: the statement does not say the event precedes the answer.
+	_ = replay
 }
 
 // ---------------------------------------------------------------------------
@@ -1145,6 +1134,28 @@ func (s *Sim) finalC16(li int, name string, c *chainState) {
 			orderly[o.Gen] = false
 		}
 	}
+	// a request answered with success on behalf of an entry of its own kind -- its producer, or an
+	// idempotent replay of it, possibly in a later generation than the one that committed it --
+	// implies that the entry has been published by the end of the answering generation
+	for _, o := range s.ledgerOps(li) {
+		if !o.success() || o.Op.DryRun || o.entryAtReturn < 0 || o.entryAtReturn >= len(c.entries) || !orderly[o.Gen] {
+			continue
+		}
+		e := c.entries[o.entryAtReturn]
+		if !sameKindAndTarget(o, e) || e.Published > 0 || o.published > 0 {
+			continue
+		}
+		if e.Type == "DELETE_METADATA" {
+			n := 0
+			for _, x := range c.byMatch[e.MatchKey] {
+				n += x.Published
+			}
+			if n > 0 {
+				continue
+			}
+		}
+		s.violate("C16", "committed-change-never-published", fmt.Sprintf("%s: request %s was answered with success on behalf of entry %d (%s, committed by generation %d), yet by the end of its (orderly) generation %d no event has ever described that entry", name, o.Name, e.Idx, e.Type, e.Row.Gen, o.Gen), "type="+e.Type, "answered-replay")
+	}
 	delPublished, delEntries := map[string]int{}, map[string][]*Entry{}
 	for _, e := range c.entries {
 		if e.Row.Gen < 0 || !orderly[e.Row.Gen] {
@@ -1177,6 +1188,30 @@ func (s *Sim) finalC16(li int, name string, c *chainState) {
 			s.violate("C16", "committed-change-never-published", fmt.Sprintf("%s: %d DELETE_METADATA entr(y/ies) for %q committed by orderly generations but only %d event(s) described them", name, len(delEntries[k]), k, delPublished[k]), "type=DELETE_METADATA")
 		}
 	}
+}
+
+// sameKindAndTarget: could entry e be the effect of a request like o (the request itself or an
+// earlier request it replays through its idempotency key)?
+func sameKindAndTarget(o *OpRecord, e *Entry) bool {
+	switch o.Op.Kind {
+	case "script", "postings":
+		return e.Type == "NEW_TRANSACTION"
+	case "revert":
+		return e.Type == "REVERTED_TRANSACTION" && o.TargetTx != nil && e.RevertedID == o.TargetTx.String()
+	case "setmeta", "delmeta":
+		want := "SET_METADATA"
+		if o.Op.Kind == "delmeta" {
+			want = "DELETE_METADATA"
+		}
+		if e.Type != want {
+			return false
+		}
+		if o.Op.OnTx {
+			return e.TargetType == "TRANSACTION" && o.TargetTx != nil && e.TargetID == o.TargetTx.String()
+		}
+		return e.TargetType == "ACCOUNT" && e.TargetID == o.TargetKey
+	}
+	return false
 }
 
 // probes: rare-condition counters derived from the history.
